@@ -360,6 +360,356 @@ def r2_r3(ctx, L, hs):
               "the window test is `%s`; the contract is: stop iff every newer loss is strictly greater than the next older one over the last `threshold` losses" % got)
 
 
+SEM_INSTANCES = ("threshold-starts-none", "threshold-set-iff-validation", "single-stop-site", "stop-guard:some-threshold", "stop-guard:epoch-gt-threshold",
+                 "stop-guard:increasing", "stop-is-unconditional-once-detected", "stop-check-reached-every-epoch", "decided-after-recording")
+SEM_INSTANCES3 = ("window-is-last-threshold-losses", "increasing-starts-true", "adjacent-pairs-strictly-increasing")
+
+
+def stop_semantics_e6(ctx):
+    """R13.2 / R13.3 decided on the E6 effect summary of Network::learn, whatever the spelling (flag loop, `all`, `windows`, a helper).
+    With T the third component of the validation tuple, N the number of epochs run = the number of recorded validation losses after this epoch's push
+    (N = epoch - first epoch + 1, by R13.1: one push per epoch, none elsewhere) and
+        STOP := validation is Some  and  N - T >= 1  and  for all k in 0..T-1: L[N-1-k] > L[N-2-k]
+    every way through one epoch that leaves the epoch loop has STOP among its path facts, every way that stays in the loop has the negation
+    of one of its conjuncts, and there is no other exit.  -> {instance: (ok, detail)}"""
+    from .. import e6
+    c = ctx.crate
+    fn = ctx.fn("network::Network::learn")
+    E = e6.Exec(c, fn)
+    tops = [p for p in E.run_fn() if p.exit is None or p.exit[0] == "return"]
+    if not tops:
+        raise Unestablished("learn: no returning path", c.loc(fn))
+    VAL = ("p", "validation")
+    PAY = ("payload", VAL, "Option::Some", 0)
+    T = e6.mk_proj(PAY, 2)
+    LT = e6.lin(T)
+    res = {}
+
+    def note(key, ok, detail=""):
+        res.setdefault(key, []).append((bool(ok), detail))
+
+    def ladd(a, b, k=1):
+        out = dict(a[0])
+        for key, v in b[0].items():
+            out[key] = out.get(key, 0) + k * v
+            if out[key] == 0:
+                del out[key]
+        return out, a[1] + k * b[1]
+
+    def unnot(t, pol):
+        while isinstance(t, tuple) and t and t[0] == "un" and t[1] == "Not":
+            t, pol = t[2], not pol
+        return t, pol
+
+    def deref(t):
+        while isinstance(t, tuple) and t and ((t[0] == "un" and t[1] == "Deref") or t[0] == "upd" or (t[0] == "call" and t[1].rsplit("::", 1)[-1] in ("clone", "iter", "as_slice", "to_vec", "copied", "cloned") and len(t[2]) == 1)):
+            t = t[2] if t[0] == "un" else (t[1] if t[0] == "upd" else t[2][0])
+        return t
+    n_break = 0
+    for P in tops:
+        val = P.val if P.exit is None else P.exit[1]
+        comps = val[1] if isinstance(val, tuple) and val and val[0] == "tup" else ()
+        if len(comps) != 3:
+            raise Unestablished("learn does not return its three histories", c.loc(fn))
+        TL, VL = e6.root_name(comps[0]), e6.root_name(comps[1])
+        vsome = None
+        for (t, pol) in P.pc:
+            if t == ("is", VAL, "Option::Some"):
+                vsome = pol
+            elif t == ("is", VAL, "Option::None"):
+                vsome = not pol
+        ep = [e for e in P.eff if e[0] == "loop" and e6.range_of(e[2]) is not None and any(f[0] == "push" and f[1] == ("local", TL) for x in e[3] for f in x[1])]
+        if len(ep) != 1:
+            raise Unestablished("learn: epoch loop not found on a path (%d candidates)" % len(ep), c.loc(fn))
+        e = ep[0]
+        lid = e[1]
+        EPOCH = ("elem", e[2], lid)
+        start = e6.range_of(e[2])[0]
+        BASE = ("loopin", VL, lid)
+        if vsome is None:
+            raise Unestablished("learn: a path does not decide whether validation data is given", c.loc(fn))
+
+        def nlen(t):
+            """(pushes on top of the list at epoch entry) if t is the validation-loss list, else None"""
+            k = 0
+            t = deref(t)
+            while isinstance(t, tuple) and t and t[0] == "pushed":
+                t, k = deref(t[1]), k + 1
+            return k if t == BASE else None
+
+        def sub_len(t):
+            """len(validation losses [+k pushes]) -> (epoch - first epoch) + k"""
+            if isinstance(t, tuple) and t:
+                if t[0] == "call" and t[1].rsplit("::", 1)[-1] == "len" and len(t[2]) == 1 and nlen(t[2][0]) is not None:
+                    return e6.mk_bin("Add", e6.mk_bin("Sub", EPOCH, start), ("lit", str(nlen(t[2][0]))))
+                return tuple(sub_len(x) for x in t)
+            return t
+
+        def lin13(t):
+            return e6.lin(sub_len(t))
+        LE = e6.lin(EPOCH)
+
+        def enough(t0):
+            """t0 a comparison: -> True (it is D >= 1), False (it is D <= 0), 'other' (another comparison of epoch / length with T), None"""
+            if not (isinstance(t0, tuple) and t0 and t0[0] == "bin" and t0[1] in ("Lt", "Le", "Gt", "Ge", "Eq", "Ne")):
+                return None
+            d = ladd(lin13(t0[2]), lin13(t0[3]), -1)
+            tk = list(LT[0].keys())[0]
+            ek = list(LE[0].keys())[0]
+            if tk not in d[0]:
+                return None
+            if set(d[0]) != {tk, ek} or d[0][tk] != -d[0][ek] or abs(d[0][tk]) != 1:
+                return "other"
+            sgn, c0 = d[0][ek], d[1]
+            op = t0[1]
+            if op in ("Eq", "Ne"):
+                return "other"
+            if sgn == 1:
+                form = {"Lt": ("le", -c0 - 1), "Le": ("le", -c0), "Gt": ("ge", -c0 + 1), "Ge": ("ge", -c0)}[op]
+            else:
+                form = {"Lt": ("ge", c0 + 1), "Le": ("ge", c0), "Gt": ("le", c0 - 1), "Ge": ("le", c0)}[op]
+            # in terms of the number of epochs run so far, N = epoch - first epoch + 1:  D_N = D - first + 1
+            ls = e6.lin(start)
+            if ls[0]:
+                return "other"
+            form = (form[0], form[1] - ls[1] + 1)
+            if form == ("ge", 1):
+                return True
+            if form == ("le", 0):
+                return False
+            return "other"
+
+        def position(t, q):
+            """t = an element of (a view of) the validation-loss list -> (pushes, lin position in terms of N (key 'N'), T and the quantified variable q) or None"""
+            t = deref(t)
+            if not (isinstance(t, tuple) and t and t[0] == "idx"):
+                return None
+            S, ix = deref(t[1]), t[2]
+            li = e6.lin(ix)
+            NL = ({"N": 1}, 0)
+            # element j of a `windows(S', 2)` item w: S'[w + j]
+            if isinstance(S, tuple) and S and S[0] == "elem":
+                w = e6.is_call(deref(S[1]), "windows", 2)
+                if w and e6.lin(w[1]) == ({}, 2) and q is not None and q[0] == "win" and S[2] == q[1][2]:
+                    inner = position(("idx", w[0], e6.mk_bin("Add", ("var13", "q"), ix)), q)
+                    return inner
+                return None
+            col = e6.is_call(S, "collect", 1)
+            if col:
+                tk_ = e6.is_call(deref(col[0]), "take", 2)
+                rv = e6.is_call(deref(tk_[0]), "rev", 1) if tk_ else None
+                if rv and nlen(rv[0]) is not None and e6.lin(tk_[1]) == LT:
+                    return nlen(rv[0]), ladd(ladd(NL, ({}, 1), -1), li, -1)          # newest first: N - 1 - i
+                return None
+            if isinstance(S, tuple) and S and S[0] == "idx" and isinstance(S[2], tuple) and S[2][0] == "struct" and S[2][1].endswith("RangeFrom") and nlen(S[1]) is not None:
+                st = dict(S[2][2]).get("start")
+                ls = e6.lin(sub_N(st, S[1]))
+                return nlen(S[1]), ladd(ls, li, 1)
+            if nlen(S) is not None:
+                return nlen(S), li
+            return None
+
+        def sub_N(t, B):
+            """len(B) -> the symbol N inside a slice bound"""
+            if isinstance(t, tuple) and t:
+                if t[0] == "call" and t[1].rsplit("::", 1)[-1] == "len" and len(t[2]) == 1 and deref(t[2][0]) == deref(B):
+                    return ("var13", "N")
+                return tuple(sub_N(x, B) for x in t)
+            return t
+
+        def canon_q(l, qkey):
+            out = {}
+            for k_, v in l[0].items():
+                if k_ == qkey:
+                    out["q"] = v
+                elif k_ == repr(("var13", "q")):
+                    out["q"] = out.get("q", 0) + v
+                elif k_ == repr(("var13", "N")):
+                    out["N"] = out.get("N", 0) + v
+                elif k_ == list(LT[0].keys())[0]:
+                    out["T"] = v
+                else:
+                    out[k_] = v
+            return out, l[1]
+
+        def pair_window(X, Y, q, qkey, count):
+            """`X > Y` for every value of the quantified variable in 0..count -> 'ok' iff these are exactly the pairs (L[N-1-k], L[N-2-k]), k in 0..T-1,
+            of the list after this epoch's push"""
+            px, py = position(X, q), position(Y, q)
+            if px is None or py is None:
+                return "not-the-recorded-losses"
+            if px[0] != 1 or py[0] != 1:
+                return "window-taken-before-this-epoch-is-recorded" if (px[0] == 0 or py[0] == 0) else "not-the-recorded-losses"
+            hx, hy = canon_q(px[1], qkey), canon_q(py[1], qkey)
+            cnt = canon_q(count, qkey)
+            dq = ({k_: hx[0].get(k_, 0) - hy[0].get(k_, 0) for k_ in set(hx[0]) | set(hy[0]) if hx[0].get(k_, 0) - hy[0].get(k_, 0) != 0}, hx[1] - hy[1])
+            if dq != ({}, 1):
+                return "pairs-are-not-adjacent-newer-vs-older"
+            if cnt != ({"T": 1}, -1):
+                return "window-length:%s" % (cnt,)
+            s_ = hx[0].get("q", 0)
+            rest = ({k_: v for k_, v in hx[0].items() if k_ != "q"}, hx[1])
+            if s_ == -1 and rest == ({"N": 1}, -1):
+                return "ok"
+            if s_ == 1 and rest == ({"N": 1, "T": -1}, 1):
+                return "ok"
+            return "window-position:%s" % (hx,)
+
+        def gt_pair(t0, pol0):
+            """fact `t0 == pol0` as `X > Y` -> (X, Y) or None"""
+            if not (isinstance(t0, tuple) and t0 and t0[0] == "bin"):
+                return None
+            op, a, b = t0[1], t0[2], t0[3]
+            if (op == "Gt" and pol0) or (op == "Le" and not pol0):
+                return a, b
+            if (op == "Lt" and pol0) or (op == "Ge" and not pol0):
+                return b, a
+            return None
+
+        def window(t0, x):
+            """is the path fact t0 the statement `the last T recorded losses are strictly increasing`?  -> 'ok' | reason | None (not a window fact)"""
+            pc, eff, ex, v = x
+            if isinstance(t0, tuple) and t0 and t0[0] == "loopout" and len(t0) >= 3:
+                name, l2 = t0[1], t0[2]
+                lp = [f for f in eff if f[0] == "loop" and f[1] == l2]
+                if not lp:
+                    return None
+                lp = lp[0]
+                if not any(g[0] == "set" and g[1] == ("local", name) for y in lp[3] for g in y[1]):
+                    return None
+                init = t0[3] if len(t0) == 4 else None
+                if init != ("lit", "true"):
+                    return "flag-starts-as:%s" % e6.show(init, 2)[:30]
+                rng = e6.range_of(lp[2])
+                if rng is None or e6.lin(rng[0]) != ({}, 0):
+                    return "flag-loop-range"
+                live = [y for y in lp[3] if not (y[2] is not None and y[2][0] == "panic")]
+                clear = [y for y in live if any(g[0] == "set" and g[1] == ("local", name) for g in y[1])]
+                keep = [y for y in live if y not in clear]
+                if len(clear) != 1 or len(keep) != 1 or len(clear[0][0]) != 1 or len(keep[0][0]) != 1 or keep[0][1] or keep[0][2] is not None:
+                    return "flag-loop-shape"
+                sets = [g for g in clear[0][1] if g[0] == "set" and g[1] == ("local", name)]
+                if len(sets) != 1 or sets[0][2] != ("lit", "false") or len(clear[0][1]) != 1:
+                    return "flag-loop-shape"
+                (ct, cp), (kt, kp) = clear[0][0][0], keep[0][0][0]
+                ct, cp = unnot(ct, cp)
+                kt, kp = unnot(kt, kp)
+                if ct != kt or cp == kp:
+                    return "flag-loop-shape"
+                g = gt_pair(kt, kp)          # the pair relation under which the flag survives
+                if g is None:
+                    return "pair-test:%s" % e6.show(kt, 2)[:40]
+                qv = ("elem", lp[2], l2)
+                return pair_window(g[0], g[1], ("rng", qv), repr(qv), ladd(e6.lin(rng[1]), e6.lin(rng[0]), -1))
+            al = e6.is_call(t0, "all", 2)
+            if al and isinstance(al[1], tuple) and al[1][0] == "closure":
+                cid = "cl%s" % (al[1][1],)
+                lp = [f for f in eff if f[0] == "loop" and f[1] == cid]
+                if not lp:
+                    return None
+                live = [y for y in lp[0][3] if not (y[2] is not None and y[2][0] == "panic")]
+                if len(live) != 1 or live[0][0] or live[0][1] or live[0][2] is not None:
+                    return "all-closure-shape"
+                vt, vp = unnot(live[0][3], True)
+                g = gt_pair(vt, vp)
+                if g is None:
+                    return "pair-test:%s" % e6.show(vt, 2)[:40]
+                src = deref(al[0])
+                rng = e6.range_of(src)
+                qv = ("elem", lp[0][2], cid)
+                if rng is not None:
+                    if e6.lin(rng[0]) != ({}, 0):
+                        return "all-range"
+                    return pair_window(g[0], g[1], ("rng", qv), repr(qv), ladd(e6.lin(rng[1]), e6.lin(rng[0]), -1))
+                w = e6.is_call(src, "windows", 2)
+                if w and e6.lin(w[1]) == ({}, 2):
+                    S = deref(w[0])
+                    # number of windows of size 2 over S: len(S) - 1
+                    if isinstance(S, tuple) and S and S[0] == "idx" and isinstance(S[2], tuple) and S[2][0] == "struct" and S[2][1].endswith("RangeFrom") and nlen(S[1]) is not None:
+                        st = dict(S[2][2]).get("start")
+                        ls = e6.lin(sub_N(st, S[1]))
+                        cnt = ladd(ladd(({repr(("var13", "N")): 1}, 0), ls, -1), ({}, 1), -1)
+                    elif nlen(S) is not None:
+                        return "window-covers-the-whole-history"
+                    else:
+                        return "not-the-recorded-losses"
+                    return pair_window(g[0], g[1], ("win", qv), repr(qv), cnt)
+                return "all-source:%s" % e6.show(src, 2)[:40]
+            return None
+        for x in e[3]:
+            pc, eff, ex, v = x
+            if ex is not None and ex[0] == "panic":
+                continue
+            kind = "fall" if ex is None else ex[0]
+            if kind == "break" and ex[1] != lid:
+                kind = "other-exit"
+            topf = dict(P.pc)
+            if any(t in topf and topf[t] != pol for (t, pol) in pc):
+                continue          # contradicts what is known on this way into the loop (e.g. `validation is None` inside, `Some` outside)
+            A, INC = set(), set()
+            wrong = []
+            for (t, pol) in pc:
+                t0, pol0 = unnot(t, pol)
+                r = enough(t0)
+                if r is True or r is False:
+                    A.add(pol0 if r else (not pol0))
+                    continue
+                if r == "other":
+                    wrong.append("threshold test `%s`" % e6.show(t0, 3)[:70])
+                    continue
+                w = window(t0, x)
+                if w == "ok":
+                    INC.add(pol0)
+                elif w is not None:
+                    wrong.append("window test: " + w)
+            if len(A) == 2 or len(INC) == 2:
+                continue          # contradictory facts: not a feasible way through the epoch
+            a_ = next(iter(A)) if A else None
+            i_ = next(iter(INC)) if INC else None
+            if not vsome:
+                note("no-stop-without-validation", kind in ("fall", "continue"), "without validation data an epoch can end with `%s`" % kind)
+                continue
+            if kind == "break":
+                n_break += 1
+                note("guard-A", a_ is True, "the stop is not under `epoch > threshold` (%s)" % ("; ".join(wrong) or "no such test on the path"))
+                note("guard-INC", i_ is True, "the stop is not under `the last T recorded losses strictly increasing` (%s)" % ("; ".join(wrong) or "no such test on the path"))
+            elif kind in ("fall", "continue"):
+                note("unconditional", a_ is False or i_ is False, "an epoch continues although nothing on its path rules out `epoch > threshold and increasing` (%s)" % ("; ".join(wrong) or "-"))
+                if wrong:
+                    note("wrong-tests", False, "; ".join(wrong))
+            else:
+                note("single-exit", False, "an epoch ends with `%s`" % kind)
+    note("has-stop", n_break > 0, "no path leaves the epoch loop early")
+    return res
+
+
+def _sem_fallback(ctx):
+    """when the statement-shape rules for R13.2 / R13.3 object, the same clauses are decided on the E6 summary; if every clause is established
+    there, the objections were about spelling"""
+    bad = [o for o in ctx.obligations if o["rule"] in ("R13.2", "R13.3") and o["status"] != "ok"]
+    if not bad:
+        return
+    try:
+        res = stop_semantics_e6(ctx)
+    except Unestablished:
+        return
+    except Exception:  # noqa: the fallback never makes things worse
+        return
+    if not res or not all(ok for v in res.values() for (ok, _) in v):
+        return
+    if not all(k in res for k in ("guard-A", "guard-INC", "unconditional", "has-stop")):
+        return
+    fn = ctx.fn("network::Network::learn")
+    where = ctx.crate.loc(fn)
+    ctx.obligations[:] = [o for o in ctx.obligations if not (o["rule"] in ("R13.2", "R13.3") and (o["status"] != "ok" or o["instance"] in SEM_INSTANCES + SEM_INSTANCES3))]
+    for inst in SEM_INSTANCES:
+        ctx.ok("R13.2", inst, "established on the effect summary of learn: every early exit of the epoch loop has `validation given, epoch > threshold, last T losses "
+               "strictly increasing` among its path facts and every continuing path contradicts one of them (%d path checks)" % sum(len(v) for v in res.values()), where)
+    for inst in SEM_INSTANCES3:
+        ctx.ok("R13.3", inst, "established on the effect summary of learn: the window test compares exactly the pairs (L[N-1-k], L[N-2-k]), k in 0..T-1, of the list "
+               "after this epoch's push", where)
+
+
 def run(ctx):
     L = ctx.guard("R13.1", "learn-structure", parts, ctx)
     if not L:
@@ -367,6 +717,7 @@ def run(ctx):
     hs = ctx.guard("R13.1", "histories", r1, ctx, L)
     if hs:
         ctx.guard("R13.2", "stopping", r2_r3, ctx, L, hs)
+        _sem_fallback(ctx)
     ctx.floor("R13.1", 14, "")
     ctx.floor("R13.2", 9, "")
     ctx.floor("R13.3", 3, "")
